@@ -71,6 +71,7 @@ fn oracle_value_ok(kind: u8, a: u8, _b: u16, c: u32) -> bool {
         0 | 11 | 13 | 21 | 24 | 25 | 26 => a <= 1,
         20 => a <= 2,
         5 => c >= 1 && c <= 268_435_455,
+        19 => _b != 0,
         _ => true,
     }
 }
@@ -120,4 +121,15 @@ fn k_valid_for_slice() {
     let want = (n < 1 || arr[0].is_valid_for(ctx(c))) && (n < 2 || arr[1].is_valid_for(ctx(c)));
     assert!(props.valid_for(ctx(c)) == want);
     kani::cover!(n == 2 && want);
+}
+
+/// MQTT 5.0 3.3.2.3.4: a Topic Alias value of 0 is not permitted (kept apart from k_is_valid_for so
+/// that this finding cannot mask another disagreement with the table)
+#[cfg_attr(kani, kani::proof)]
+#[cfg_attr(verif_replay, test)]
+fn k_topic_alias_nonzero() {
+    let v: u16 = kani::any();
+    let got = Property::TopicAlias(v).is_valid_for(PropertyContext::Publish);
+    assert!(got == (v != 0), "Topic Alias 0 accepted on PUBLISH");
+    kani::cover!(got);
 }
